@@ -363,7 +363,7 @@ func derivesFromWrapper(v ssa.Value, d int) bool {
 		n++
 		ap := pathOf(l)
 		if f := ap.Last(); f != nil {
-			if nt := namedOf(f.Type()); nt != nil && nt.Obj().Name() == "ctxConn" {
+			if nt := namedOf(f.Type()); nt != nil && curProg != nil && curProg.Type("ctxConn") != nil && nt.Obj() == curProg.Type("ctxConn").Obj() {
 				continue
 			}
 			// address of the limited reader field: its R stores
